@@ -5,7 +5,7 @@ Scenario (JSON-able):
   mode     : "metric" | "pre" (UnsupervisedOPF only; matrix through the public setters) | "table"
              (features are row ids, distance_fn = table lookup through the public distance_fn setter)
   metric, Z, D (matrix for pre/table), I_train, Y, I_val, Yv (knn), min_k, max_k, Q (query rows),
-  propagate (unsup: call propagate_labels() after fit), pass_I, single_predict
+  propagate (unsup: call propagate_labels() after fit), prepredict (a predict call before propagate_labels), pass_I, single_predict
 """
 import json
 import math
@@ -229,11 +229,16 @@ def run_scenario(scn):
             Ytr = np.array(scn["Y"], dtype=int)
             if scn["kind"] == "unsup":
                 model.fit(Xtr, Ytr.copy(), np.array(I_train) if passI else None)
+                if scn.get("prepredict") and Q:
+                    # object history: the model has already predicted once before its labels are (re)written
+                    model.predict(Z[Q].copy(), np.array(Q) if passI else None)
                 if scn.get("propagate"):
                     model.propagate_labels()
             else:
                 Iv = list(scn["I_val"])
                 model.fit(Xtr, Ytr.copy(), Z[Iv].copy(), np.array(scn["Yv"], dtype=int), np.array(I_train) if passI else None, np.array(Iv) if passI else None)
+                if scn.get("prepredict") and Q:
+                    model.predict(Z[Q[::-1]].copy(), np.array(Q[::-1]) if passI else None)
         finally:
             CTX["on"] = False
         sg = model.subgraph
